@@ -107,11 +107,11 @@ func (in *Interp) ipdom(b *ssa.BasicBlock) *ssa.BasicBlock {
 // immediate post-dominator), joins the two resulting states location by
 // location (values that differ become ⊤) and returns the join block together
 // with the joined values of its phis.
-func (in *Interp) forkAndMerge(fr *frame, b *ssa.BasicBlock, ifi *ssa.If, cond Val, md MergeDomain) (*ssa.BasicBlock, map[*ssa.Phi]Val) {
+// If the sides rejoin only at the function's exit, both are run to their
+// return, and the joined state and results are handed back with returned=true.
+func (in *Interp) forkAndMerge(fr *frame, b *ssa.BasicBlock, ifi *ssa.If, cond Val, md MergeDomain) (joinBlock *ssa.BasicBlock, joinPhis map[*ssa.Phi]Val, results []Val, returned bool) {
 	join := in.ipdom(b)
-	if join == nil {
-		in.Undecided(ifi, "data-dependent branch whose sides do not rejoin before the function exits")
-	}
+	toExit := join == nil
 	in.Merges++
 	type side struct {
 		writes map[locKey]Val
@@ -119,6 +119,7 @@ func (in *Interp) forkAndMerge(fr *frame, b *ssa.BasicBlock, ifi *ssa.If, cond V
 		locals map[ssa.Value]Val
 		from   *ssa.BasicBlock
 		phis   map[*ssa.Phi]Val // set when an inner merge ended exactly at the join block
+		ret    []Val            // results when the side ran to the function's return
 	}
 	saveLocals := func() map[ssa.Value]Val {
 		m := make(map[ssa.Value]Val, len(fr.locals))
@@ -137,12 +138,12 @@ func (in *Interp) forkAndMerge(fr *frame, b *ssa.BasicBlock, ifi *ssa.If, cond V
 		if truth {
 			succ = b.Succs[0]
 		}
-		stopped, from, _, innerPhis := in.runBlocks(fr, succ, b, join, nil)
+		stopped, from, ret, innerPhis := in.runBlocks(fr, succ, b, join, nil)
 		md.LeaveSide(in)
-		if !stopped {
-			in.Undecided(ifi, "one side of a data-dependent branch returns from the function")
+		if !stopped && !toExit {
+			in.Undecided(ifi, "one side of a data-dependent branch returns from the function while the other continues")
 		}
-		s := side{writes: map[locKey]Val{}, locals: saveLocals(), from: from, order: log, phis: innerPhis}
+		s := side{writes: map[locKey]Val{}, locals: saveLocals(), from: from, order: log, phis: innerPhis, ret: ret}
 		// record final values of every written location, then roll back
 		for _, e := range log {
 			k := locKey{e.obj, pathKey(e.path)}
@@ -180,6 +181,16 @@ func (in *Interp) forkAndMerge(fr *frame, b *ssa.BasicBlock, ifi *ssa.If, cond V
 		}
 		in.set(ifi, k.obj, path, in.joinVals(md, cond, vt, vf))
 	}
+	if toExit {
+		if len(st.ret) != len(sf.ret) {
+			in.Undecided(ifi, "the two sides of a data-dependent branch return different numbers of results")
+		}
+		out := make([]Val, len(st.ret))
+		for i := range out {
+			out[i] = in.joinVals(md, cond, st.ret[i], sf.ret[i])
+		}
+		return nil, nil, out, true
+	}
 	// join phis of the join block
 	phiv := map[*ssa.Phi]Val{}
 	for _, ins := range join.Instrs {
@@ -204,7 +215,7 @@ func (in *Interp) forkAndMerge(fr *frame, b *ssa.BasicBlock, ifi *ssa.If, cond V
 		}
 		phiv[ph] = in.joinVals(md, cond, get(st), get(sf))
 	}
-	return join, phiv
+	return join, phiv, nil, false
 }
 
 // joinVals: equal values stay, unequal ones become ⊤ (domain atoms are joined by the domain).
